@@ -108,11 +108,12 @@ Variable fm : nat.
 Inductive sound : sst -> Prop :=
   | Sound st :
       (forall key v, In (key, v) (ss_cache st) ->
-         exists st0 d lv r lc,
+         exists st0 d lv r lc v',
            sound st0 /\ nth_error lvs (k_line key) = Some lv /\ In r (lv_recs lv) /\ tr_gidx r = k_tok key /\ tr_kids r = Some lc
            /\ (length lvs - k_line key <= d)%nat
            /\ snd (solve_children lvs (solve_inf W lvs fm d) st0 (k_opt key) (fst (opt_base (k_opt key))) (snd (opt_base (k_opt key)))
-                                  (lch_lines lc) true (k_lll key) []) = Some v) ->
+                                  (lch_lines lc) true (k_lll key) []) = Some v'
+           /\ erase_kids v' = erase_kids v) ->
       sound st.
 
 Lemma sound_init : sound sst_init.
@@ -322,52 +323,54 @@ Proof.
   { intros k Hk. destruct (HwfA i lvA HiA) as (_ & Hrl). rewrite Forall_forall in Hrl. exact (Hrl rA HrA lc k HkA Hk). }
   (* what a lookup in a sound state gives: a witness search *)
   assert (WitA : forall v, cache_find (mkKey tllA i gidx opt) (ss_cache stA) = Some v ->
-            exists st0 d, soundA st0 /\ (length lvsA - i <= d)%nat
-              /\ snd (solve_children lvsA (solveA d) st0 opt (fst (opt_base opt)) (snd (opt_base opt)) (lch_lines lc) true tllA []) = Some v).
-  { intros v E. apply cache_find_in in E. destruct HsA as [stA HA]. destruct (HA _ _ E) as (st0 & d & lv0 & r0 & lc0 & H1 & H2 & H3 & H4 & H5 & H6 & H7).
+            exists st0 d v', soundA st0 /\ (length lvsA - i <= d)%nat
+              /\ snd (solve_children lvsA (solveA d) st0 opt (fst (opt_base opt)) (snd (opt_base opt)) (lch_lines lc) true tllA []) = Some v'
+              /\ erase_kids v' = erase_kids v).
+  { intros v E. apply cache_find_in in E. destruct HsA as [stA HA]. destruct (HA _ _ E) as (st0 & d & lv0 & r0 & lc0 & v' & H1 & H2 & H3 & H4 & H5 & H6 & H7 & H8).
     cbn [k_line k_tok k_opt k_lll] in *. rewrite HiA in H2. injection H2 as <-.
     assert (lc0 = lc) by (pose proof (HfunA i lvA HiA r0 rA H3 HrA ltac:(congruence)) as Hf; congruence). subst lc0.
-    exists st0, d. split; [assumption|split; assumption]. }
+    exists st0, d, v'. split; [assumption|split; [assumption|split; assumption]]. }
   assert (WitB : forall v, cache_find (mkKey tllB i gidx opt) (ss_cache stB) = Some v ->
-            exists st0 d, soundB st0 /\ (length lvsA - i <= d)%nat
-              /\ snd (solve_children lvsB (solveB d) st0 opt (fst (opt_base opt)) (snd (opt_base opt)) (lch_lines lc) true tllB []) = Some v).
-  { intros v E. apply cache_find_in in E. destruct HsB as [stB HB]. destruct (HB _ _ E) as (st0 & d & lv0 & r0 & lc0 & H1 & H2 & H3 & H4 & H5 & H6 & H7).
+            exists st0 d v', soundB st0 /\ (length lvsA - i <= d)%nat
+              /\ snd (solve_children lvsB (solveB d) st0 opt (fst (opt_base opt)) (snd (opt_base opt)) (lch_lines lc) true tllB []) = Some v'
+              /\ erase_kids v' = erase_kids v).
+  { intros v E. apply cache_find_in in E. destruct HsB as [stB HB]. destruct (HB _ _ E) as (st0 & d & lv0 & r0 & lc0 & v' & H1 & H2 & H3 & H4 & H5 & H6 & H7 & H8).
     cbn [k_line k_tok k_opt k_lll] in *. rewrite HiB in H2. injection H2 as <-.
     assert (lc0 = lc) by (pose proof (HfunB i lvB HiB r0 rB H3 HrB ltac:(congruence)) as Hf; congruence). subst lc0.
-    exists st0, d. rewrite Hlen. split; [assumption|split; assumption]. }
+    exists st0, d, v'. rewrite Hlen. split; [assumption|split; [assumption|split; assumption]]. }
   (* a new entry keeps the state sound *)
   assert (AddA : forall st0 st1 v, soundA st0 -> soundA st1 ->
             solve_children lvsA (solveA dA) st0 opt (fst (opt_base opt)) (snd (opt_base opt)) (lch_lines lc) true tllA [] = (st1, Some v) ->
             soundA (sst_cache_add (mkKey tllA i gidx opt) v st1)).
   { intros st0 st1 v H0 H1 E. constructor. intros key v' [Hin|Hin].
-    - injection Hin as <- <-. exists st0, dA, lvA, rA, lc. cbn [k_line k_tok k_opt k_lll]. rewrite E. split; [assumption|]. split; [assumption|]. split; [assumption|]. split; [assumption|]. split; [assumption|]. split; [assumption|reflexivity].
+    - injection Hin as <- <-. exists st0, dA, lvA, rA, lc, v. cbn [k_line k_tok k_opt k_lll]. rewrite E. split; [assumption|]. split; [assumption|]. split; [assumption|]. split; [assumption|]. split; [assumption|]. split; [assumption|split; reflexivity].
     - destruct H1 as [st1 H1]. exact (H1 key v' Hin). }
   assert (AddB : forall st0 st1 v, soundB st0 -> soundB st1 ->
             solve_children lvsB (solveB dB) st0 opt (fst (opt_base opt)) (snd (opt_base opt)) (lch_lines lc) true tllB [] = (st1, Some v) ->
             soundB (sst_cache_add (mkKey tllB i gidx opt) v st1)).
   { intros st0 st1 v H0 H1 E. constructor. intros key v' [Hin|Hin].
-    - injection Hin as <- <-. exists st0, dB, lvB, rB, lc. cbn [k_line k_tok k_opt k_lll]. rewrite E, <- Hlen. split; [assumption|]. split; [assumption|]. split; [assumption|]. split; [assumption|]. split; [assumption|]. split; [assumption|reflexivity].
+    - injection Hin as <- <-. exists st0, dB, lvB, rB, lc, v. cbn [k_line k_tok k_opt k_lll]. rewrite E, <- Hlen. split; [assumption|]. split; [assumption|]. split; [assumption|]. split; [assumption|]. split; [assumption|]. split; [assumption|split; reflexivity].
     - destruct H1 as [st1 H1]. exact (H1 key v' Hin). }
   unfold cls_step.
   destruct (cache_find (mkKey tllA i gidx opt) (ss_cache stA)) as [vA|] eqn:CA;
   destruct (cache_find (mkKey tllB i gidx opt) (ss_cache stB)) as [vB|] eqn:CB.
   - (* hit / hit *)
-    destruct (WitA vA eq_refl) as (sa & da & Hsa & Hda & Ea). destruct (WitB vB eq_refl) as (sb & db & Hsb & Hdb & Eb).
+    destruct (WitA vA eq_refl) as (sa & da & vA' & Hsa & Hda & Ea & EvA). destruct (WitB vB eq_refl) as (sb & db & vB' & Hsb & Hdb & Eb & EvB).
     destruct (solve_children_sim opt (fst (opt_base opt)) (snd (opt_base opt)) (lch_lines lc) da db sa sb true tllA tllB [] [] Hkids Hda Hdb Hsa Hsb eq_refl) as (_ & _ & E).
     rewrite Ea, Eb in E. cbn [option_map] in E. injection E as E. cbn [fst snd]. split; [assumption|split; [assumption|]].
-    apply Forall2_app; [exact Hsols|constructor; [exact E|constructor]].
+    apply Forall2_app; [exact Hsols|constructor; [unfold ksim; congruence|constructor]].
   - (* hit in A, fresh in B *)
-    destruct (WitA vA eq_refl) as (sa & da & Hsa & Hda & Ea).
+    destruct (WitA vA eq_refl) as (sa & da & vA' & Hsa & Hda & Ea & EvA).
     destruct (solve_children_sim opt (fst (opt_base opt)) (snd (opt_base opt)) (lch_lines lc) da dB sa stB true tllA tllB [] [] Hkids Hda HdB Hsa HsB eq_refl) as (_ & S2 & E).
     rewrite Ea in E. destruct (solve_children lvsB (solveB dB) stB opt _ _ (lch_lines lc) true tllB []) as [stB1 resB] eqn:EB.
     cbn [fst snd option_map] in *. destruct resB as [vB|]; [|discriminate]. injection E as E.
-    split; [exact HsA|split; [exact (AddB stB stB1 vB HsB S2 EB)|]]. apply Forall2_app; [exact Hsols|constructor; [exact E|constructor]].
+    split; [exact HsA|split; [exact (AddB stB stB1 vB HsB S2 EB)|]]. apply Forall2_app; [exact Hsols|constructor; [unfold ksim; congruence|constructor]].
   - (* fresh in A, hit in B *)
-    destruct (WitB vB eq_refl) as (sb & db & Hsb & Hdb & Eb).
+    destruct (WitB vB eq_refl) as (sb & db & vB' & Hsb & Hdb & Eb & EvB).
     destruct (solve_children_sim opt (fst (opt_base opt)) (snd (opt_base opt)) (lch_lines lc) dA db stA sb true tllA tllB [] [] Hkids HdA Hdb HsA Hsb eq_refl) as (S1 & _ & E).
     rewrite Eb in E. destruct (solve_children lvsA (solveA dA) stA opt _ _ (lch_lines lc) true tllA []) as [stA1 resA] eqn:EA.
     cbn [fst snd option_map] in *. destruct resA as [vA|]; [|discriminate]. injection E as E.
-    split; [exact (AddA stA stA1 vA HsA S1 EA)|split; [exact HsB|]]. apply Forall2_app; [exact Hsols|constructor; [exact E|constructor]].
+    split; [exact (AddA stA stA1 vA HsA S1 EA)|split; [exact HsB|]]. apply Forall2_app; [exact Hsols|constructor; [unfold ksim; congruence|constructor]].
   - (* fresh in both *)
     destruct (solve_children_sim opt (fst (opt_base opt)) (snd (opt_base opt)) (lch_lines lc) dA dB stA stB true tllA tllB [] [] Hkids HdA HdB HsA HsB eq_refl) as (S1 & S2 & E).
     destruct (solve_children lvsA (solveA dA) stA opt _ _ (lch_lines lc) true tllA []) as [stA1 resA] eqn:EA.
